@@ -8,8 +8,12 @@ import FmtModel.Lemmas.VerOrder
     semantic version that only carries build metadata, and the lower-order parts are reset;
   * `bump_major/minor/patch` give (X+1).0.0, X.(Y+1).0, X.Y.(Z+1);
   * an invalid part is a ValueError.
-  `C13_next_partial` names the gap: the `pre` / `post` / `dev` parts go through `increment` on an
-  arbitrary tag text; for those the statement is validated by the sweep and the correspondence only.
+  * `C13_next_pkg`: for EVERY packaging version whose key exists — any epoch, numbers and pre/post/dev/local
+    segments — `next_version` of epoch / major / minor / patch exists, has a key and is STRICTLY higher: either the
+    version is "before its final release" (a pre tag, or a dev tag without a post tag) and the part is reached, so the
+    segments are dropped (`lt_final`), or the release is bumped (`nr_bump_*`).
+  The gap: the `pre` / `post` / `dev` parts go through `increment` on an arbitrary tag text, and the semantic class
+  compares text tags as text; for those the statement is validated by the sweep and the correspondence only.
 -/
 namespace C13
 open Ver Py Std
@@ -108,6 +112,196 @@ theorem C13_valid_parts :
   ∧ validParts .sem = ["major".toList, "minor".toList, "patch".toList, "pre".toList]
   ∧ validParts .pkg = ["epoch".toList, "major".toList, "minor".toList, "patch".toList, "pre".toList, "post".toList, "dev".toList] := by
   decide +kernel
+
+-- packaging versions: release parts, for every version ----------------------------------------------------
+
+def finalKey (o : Obj) (rel : List Nat) : PkgKey := (o.epoch, rel, Sent.inf, Sent.ninf, Sent.inf, Sent.ninf)
+
+theorem key_reset (o : Obj) :
+    pkgKey { o with pre := none, post := none, dev := none, loc := none }
+      = .ok (finalKey o (necessaryRelease [o.major, o.minor, o.patch])) := by
+  simp [pkgKey, pkgPre, pkgPost, pkgDev, pkgLoc, truthyStr, finalKey, bind, Except.bind, pure, Except.pure]
+
+theorem key_bumpMajor (o : Obj) (ho : o.cls = .pkg) :
+    pkgKey (bumpMajor o) = .ok (finalKey o (necessaryRelease [o.major + 1, 0, 0])) := by
+  simp [bumpMajor, ho, pkgKey, pkgPre, pkgPost, pkgDev, pkgLoc, truthyStr, finalKey, bind, Except.bind, pure, Except.pure]
+
+theorem key_bumpMinor (o : Obj) (ho : o.cls = .pkg) :
+    pkgKey (bumpMinor o) = .ok (finalKey o (necessaryRelease [o.major, o.minor + 1, 0])) := by
+  simp [bumpMinor, ho, pkgKey, pkgPre, pkgPost, pkgDev, pkgLoc, truthyStr, finalKey, bind, Except.bind, pure, Except.pure]
+
+theorem key_bumpPatch (o : Obj) (ho : o.cls = .pkg) :
+    pkgKey (bumpPatch o) = .ok (finalKey o (necessaryRelease [o.major, o.minor, o.patch + 1])) := by
+  simp [bumpPatch, ho, pkgKey, pkgPre, pkgPost, pkgDev, pkgLoc, truthyStr, finalKey, bind, Except.bind, pure, Except.pure]
+
+theorem key_bumpEpoch (o : Obj) :
+    pkgKey (bumpEpoch o) = .ok ((o.epoch + 1, necessaryRelease [0, 0, 0], Sent.inf, Sent.ninf, Sent.inf, Sent.ninf) : PkgKey) := by
+  simp [bumpEpoch, pkgKey, pkgPre, pkgPost, pkgDev, pkgLoc, truthyStr, bind, Except.bind, pure, Except.pure]
+
+/-- the components of the packaging key -/
+theorem pkgKey_ok {o : Obj} {k : PkgKey} (h : pkgKey o = .ok k) :
+    k.1 = o.epoch ∧ k.2.1 = necessaryRelease [o.major, o.minor, o.patch]
+  ∧ (o.pre.isSome = true → ∃ x, k.2.2.1 = Sent.val x)
+  ∧ (o.pre = none → o.post = none → o.dev.isSome = true → k.2.2.1 = Sent.ninf)
+  ∧ (o.pre = none → ¬ (o.post = none ∧ o.dev.isSome = true) → k.2.2.1 = Sent.inf)
+  ∧ (truthyStr o.post = false → k.2.2.2.1 = Sent.ninf)
+  ∧ (truthyStr o.dev = true → ∃ x, k.2.2.2.2.1 = Sent.val x) := by
+  unfold pkgKey at h
+  cases hpre : pkgPre o with
+  | error e => simp [hpre, bind, Except.bind] at h
+  | ok pre =>
+    cases hpost : pkgPost o with
+    | error e => simp [hpre, hpost, bind, Except.bind] at h
+    | ok post =>
+      cases hdev : pkgDev o with
+      | error e => simp [hpre, hpost, hdev, bind, Except.bind] at h
+      | ok dev =>
+        cases hloc : pkgLoc o with
+        | error e => simp [hpre, hpost, hdev, hloc, bind, Except.bind] at h
+        | ok loc =>
+          simp only [hpre, hpost, hdev, hloc, bind, Except.bind, pure, Except.pure, Except.ok.injEq] at h
+          subst h
+          unfold pkgPre at hpre
+          unfold pkgPost at hpost
+          unfold pkgDev at hdev
+          refine ⟨rfl, rfl, ?_, ?_, ?_, ?_, ?_⟩
+          · intro hs
+            have hn : o.pre.isNone = false := by cases hp : o.pre <;> simp_all
+            simp only [hn, Bool.false_and, Bool.false_eq_true, ↓reduceIte] at hpre
+            cases he : extractLetter (o.pre.getD []) with
+            | error e => simp [he, Except.map] at hpre
+            | ok x => simp [he, Except.map] at hpre; exact ⟨x, hpre.symm⟩
+          · intro h1 h2 h3
+            simp [h1, h2, h3, pure, Except.pure] at hpre
+            exact hpre.symm
+          · intro h1 h2
+            simp [h1, h2, pure, Except.pure] at hpre
+            exact hpre.symm
+          · intro h1
+            simp [h1, pure, Except.pure] at hpost
+            exact hpost.symm
+          · intro h1
+            simp only [h1, ↓reduceIte] at hdev
+            cases he : extractLetter (o.dev.getD []) with
+            | error e => simp [he, Except.map] at hdev
+            | ok x => simp [he, Except.map] at hdev; exact ⟨x, hdev.symm⟩
+
+theorem cmp_list_self (l : List Nat) : compare l l = .eq := ReflCmp.compare_self
+
+/-- a version that is "before its final release" (it has a pre-release tag, or a dev tag and no post tag) is strictly
+    below the final release with the same epoch and numbers -/
+theorem lt_final (o : Obj) (k : PkgKey) (hk : pkgKey o = .ok k)
+    (hb : (truthyStr o.pre || (truthyStr o.dev && !truthyStr o.post)) = true) :
+    compare k (finalKey o (necessaryRelease [o.major, o.minor, o.patch])) = .lt := by
+  obtain ⟨h1, h2, hsome, hninf, hinf, hpost, hdev⟩ := pkgKey_ok hk
+  obtain ⟨e, nr, pre, post, dev, loc⟩ := k
+  simp only at h1 h2 hsome hninf hinf hpost hdev
+  subst h1; subst h2
+  simp only [finalKey, compare_prod, cmp_nat_self, cmp_list_self, Ordering.then]
+  cases hp : o.pre with
+  | some p =>
+    obtain ⟨x, hx⟩ := hsome (by simp [hp])
+    subst hx
+    simp [cmp_vi]
+  | none =>
+    have hb' : truthyStr o.dev = true ∧ truthyStr o.post = false := by
+      simp only [hp, truthyStr, Bool.false_or, Bool.and_eq_true, Bool.not_eq_true'] at hb
+      exact hb
+    obtain ⟨dx, hdx⟩ := hdev hb'.1
+    have hpo := hpost hb'.2
+    subst hdx; subst hpo
+    have hds : o.dev.isSome = true := by
+      cases hd : o.dev with
+      | none => simp [hd, truthyStr] at hb'
+      | some d => rfl
+    cases hpq : o.post with
+    | none =>
+      have := hninf hp hpq hds
+      subst this
+      simp [cmp_ni]
+    | some q =>
+      have := hinf hp (by simp [hpq])
+      subst this
+      simp [cmp_ii, cmp_nn, cmp_vi]
+
+def pkgRelParts : List Str := ["epoch".toList, "major".toList, "minor".toList, "patch".toList]
+
+def beforeFinal (o : Obj) : Bool := truthyStr o.pre || (truthyStr o.dev && !truthyStr o.post)
+def reset (o : Obj) : Obj := { o with pre := none, post := none, dev := none, loc := none }
+
+theorem valid_pkg : ∀ p ∈ pkgRelParts, p ∈ validParts .pkg := by decide +kernel
+
+theorem next_epoch (o : Obj) (ho : o.cls = .pkg) : nextVersion o "epoch".toList = .ok (bumpEpoch o) := by
+  have hv : ['e', 'p', 'o', 'c', 'h'] ∈ validParts .pkg := valid_pkg "epoch".toList (by simp [pkgRelParts])
+  simp [nextVersion, ho, hv]
+
+theorem next_major (o : Obj) (ho : o.cls = .pkg) :
+    nextVersion o "major".toList = .ok (if beforeFinal o && (o.minor == 0 && o.patch == 0) then reset o else bumpMajor o) := by
+  have hv : ['m', 'a', 'j', 'o', 'r'] ∈ validParts .pkg := valid_pkg "major".toList (by simp [pkgRelParts])
+  simp [nextVersion, ho, hv, beforeFinal, reset]
+  split <;> rfl
+
+theorem next_minor (o : Obj) (ho : o.cls = .pkg) :
+    nextVersion o "minor".toList = .ok (if beforeFinal o && (o.patch == 0) then reset o else bumpMinor o) := by
+  have hv : ['m', 'i', 'n', 'o', 'r'] ∈ validParts .pkg := valid_pkg "minor".toList (by simp [pkgRelParts])
+  simp [nextVersion, ho, hv, beforeFinal, reset]
+  split <;> rfl
+
+theorem next_patch (o : Obj) (ho : o.cls = .pkg) :
+    nextVersion o "patch".toList = .ok (if beforeFinal o then reset o else bumpPatch o) := by
+  have hv : ['p', 'a', 't', 'c', 'h'] ∈ validParts .pkg := valid_pkg "patch".toList (by simp [pkgRelParts])
+  simp [nextVersion, ho, hv, beforeFinal, reset]
+  split <;> rfl
+
+/-- **packaging versions, release parts**: for EVERY packaging version whose key exists (any epoch, numbers and
+    pre/post/dev/local segments) `next_version` of epoch / major / minor / patch exists, has a key, and is strictly higher -/
+theorem C13_next_pkg (o : Obj) (ho : o.cls = .pkg) (k : PkgKey) (hk : pkgKey o = .ok k) (part : Str) (hp : part ∈ pkgRelParts) :
+    ∃ o' k', nextVersion o part = .ok o' ∧ pkgKey o' = .ok k' ∧ compare k k' = .lt := by
+  obtain ⟨h1, h2, _⟩ := pkgKey_ok hk
+  -- every bump of the release is above `o`, whatever segments `o` carries
+  have bump_lt : ∀ rel', compare (necessaryRelease [o.major, o.minor, o.patch]) rel' = .lt →
+      compare k (finalKey o rel') = .lt := by
+    intro rel' hr
+    obtain ⟨e, nr, rest⟩ := k
+    simp only at h1 h2
+    subst h1; subst h2
+    simp [finalKey, compare_prod, cmp_nat_self, hr, Ordering.then]
+  have reset_lt : beforeFinal o = true → compare k (finalKey o (necessaryRelease [o.major, o.minor, o.patch])) = .lt :=
+    fun hb => lt_final o k hk hb
+  simp only [pkgRelParts, List.mem_cons, List.mem_nil_iff, or_false] at hp
+  rcases hp with rfl | rfl | rfl | rfl
+  · refine ⟨bumpEpoch o, _, next_epoch o ho, key_bumpEpoch o, ?_⟩
+    obtain ⟨e, rest⟩ := k
+    simp only at h1
+    subst h1
+    simp [compare_prod, cmp_nat_lt (Nat.lt_succ_self o.epoch), Ordering.then]
+  · rw [next_major o ho]
+    by_cases hc : (beforeFinal o && (o.minor == 0 && o.patch == 0)) = true
+    · simp only [hc, ↓reduceIte]
+      exact ⟨reset o, _, rfl, key_reset o, reset_lt (by simp only [Bool.and_eq_true] at hc; exact hc.1)⟩
+    · simp only [hc, Bool.false_eq_true, ↓reduceIte]
+      exact ⟨bumpMajor o, _, rfl, key_bumpMajor o ho, bump_lt _ (nr_bump_major _ _ _)⟩
+  · rw [next_minor o ho]
+    by_cases hc : (beforeFinal o && (o.patch == 0)) = true
+    · simp only [hc, ↓reduceIte]
+      exact ⟨reset o, _, rfl, key_reset o, reset_lt (by simp only [Bool.and_eq_true] at hc; exact hc.1)⟩
+    · simp only [hc, Bool.false_eq_true, ↓reduceIte]
+      exact ⟨bumpMinor o, _, rfl, key_bumpMinor o ho, bump_lt _ (nr_bump_minor _ _ _)⟩
+  · rw [next_patch o ho]
+    by_cases hc : beforeFinal o = true
+    · simp only [hc, ↓reduceIte]
+      exact ⟨reset o, _, rfl, key_reset o, reset_lt hc⟩
+    · simp only [hc, Bool.false_eq_true, ↓reduceIte]
+      exact ⟨bumpPatch o, _, rfl, key_bumpPatch o ho, bump_lt _ (nr_bump_patch _ _ _)⟩
+
+/-- the hypotheses are met by a parsed version with all segments (non-vacuity) -/
+def hasPkgKey (s : String) : Bool :=
+  match parse .pkg s.toList with
+  | .ok o => decide (o.cls = .pkg) && (match pkgKey o with | .ok _ => true | .error _ => false)
+  | .error _ => false
+
+example : hasPkgKey "2!1.2.0rc1.post2.dev3+abc.1" = true ∧ hasPkgKey "1.0.0.dev1" = true := by decide +kernel
+
 
 -- immutability ------------------------------------------------------------------------------------------
 
